@@ -705,11 +705,13 @@ def eval_numbers_extracted(exe, xs):
     return res
 
 
-def run_single_process(lines):
+def run_single_process(lines, env_extra=None):
     """the given worker lines, in order, in ONE fresh interpreter"""
     script = os.path.join(common.VERIF, "harness", "impl", "c16_impl.py")
+    env = common.impl_env()
+    env.update(env_extra or {})
     p = subprocess.run([common.PY, script], input="\n".join(json.dumps(c) for c in lines) + "\n", stdout=subprocess.PIPE,
-                       stderr=subprocess.PIPE, text=True, env=common.impl_env(), timeout=1800, cwd=common.scratch())
+                       stderr=subprocess.PIPE, text=True, env=env, timeout=1800, cwd=common.scratch())
     if p.returncode != 0:
         raise RuntimeError("c16_impl failed in the history run:\n%s" % p.stderr[-1500:])
     return [json.loads(l) for l in p.stdout.split("\n") if l.strip()]
@@ -1083,6 +1085,23 @@ def check(run):
     vio += position_violations(pos_groups, obs)
     run.coverage["position_groups"] = len(pos_groups)
 
+    # ---- process environment: a sample without the C accelerator of json (pure-Python string encoder), another hash seed
+    try:
+        pick = [i for i, k in enumerate(kinds) if k in ("doc", "pos") and "ok" in obs[i]]
+        pick = rng.sample(pick, min(1500, len(pick))) + [i for i, k in enumerate(kinds) if k == "num"][:300]
+        eobs = [dec_obs(o) for o in run_single_process([{"v": enc(values[i])} for i in pick],
+                                                       {"VERIF_NO_JSON_ACCEL": "1", "PYTHONHASHSEED": "4242", "TZ": "JST-9"})]
+        for i, o in zip(pick, eobs):
+            if o.get("ok") != obs[i].get("ok") or o.get("exc") != obs[i].get("exc"):
+                vio.append(Violation(
+                    "the output depends on the process environment (no _json accelerator, another hash seed): %r by default, %r there"
+                    % (clip(obs[i].get("ok", obs[i].get("exc")), o.get("ok", o.get("exc", ""))),
+                       clip(o.get("ok", o.get("exc", "")), obs[i].get("ok", obs[i].get("exc")))),
+                    {"kind": "environment", "v": enc(values[i])}))
+        run.coverage["environment_cases"] = len(pick)
+    except RuntimeError as e:
+        run.broken.append(Broken("correspondence", "environment run failed", {"error": str(e)[-800:]}))
+
     # ---- history independence: the same questions after other public calls in one interpreter
     try:
         hv, n_hist, hist_ops = history_violations(values, obs, kinds, rng)
@@ -1122,7 +1141,7 @@ def check(run):
         seen_kind[k] = seen_kind.get(k, 0) + 1
         if seen_kind[k] > 3:
             continue
-        if k not in ("order", "history", "position"):
+        if k not in ("order", "history", "position", "environment"):
             val = dec(v.replay["v"])
             if isinstance(val, (list, dict)):
                 small = shrink(val, k)
@@ -1158,6 +1177,19 @@ def replay(payload):
         for h in r["hist"][:5]:
             print("                  call: %s" % json.dumps(h["hist"])[:160])
         if fresh.get("ok") != after.get("ok") or fresh.get("exc") != after.get("exc"):
+            print("VIOLATION property=C16 replay=(given)")
+            return 1
+        print("no violation on this input")
+        return 0
+    if kind == "environment":
+        a = run_cases([v])[0]
+        b = dec_obs(run_single_process([{"v": enc(v)}], {"VERIF_NO_JSON_ACCEL": "1", "PYTHONHASHSEED": "4242", "TZ": "JST-9"})[0])
+        print("replay environment: default            -> %r" % (a.get("ok", a.get("exc")),))
+        print("                    no _json, seed 4242 -> %r" % (b.get("ok", b.get("exc")),))
+        ref_fail = [w for _, w in oracle_one(v, b)]
+        for w in ref_fail:
+            print("  " + w)
+        if a.get("ok") != b.get("ok") or a.get("exc") != b.get("exc") or ref_fail:
             print("VIOLATION property=C16 replay=(given)")
             return 1
         print("no violation on this input")
